@@ -29,6 +29,14 @@ def main():
   except Exception:   # Engine-X-only environments
     symjx = None
   try:
+    import fedjax
+    where = os.path.realpath(os.path.dirname(os.path.dirname(fedjax.__file__)))
+    if where != os.path.realpath(common.REPO):
+      raise RuntimeError('fedjax is imported from %s, not from the tree under verification %s' % (where, common.REPO))
+  except Exception as e:   # pylint: disable=broad-except
+    run.fail('harness error: %r' % (e,))
+    sys.exit(run.finish(getattr(mod, 'LEVEL', 'model_checking')))
+  try:
     mod.check(run)
   except Exception as e:   # harness error => inconclusive, never success
     traceback.print_exc()
